@@ -10,7 +10,7 @@
    covers worktree operations that fail part-way (they simply stop before
    their SetIndex). *)
 From Coq Require Import List NArith Bool String.
-From GoGit Require Import Base.Out Model.IndexCache Model.IndexCacheExt Proofs.C20 Proofs.C20Ext.
+From GoGit Require Import Base.Out Model.IndexCache Model.IndexCacheExt Proofs.C20 Proofs.C20Ext Proofs.C20Quiet.
 Import ListNotations.
 
 (* G as repaired ("fix: copy the entries in copyIndex", deep = true): after EVERY
@@ -75,3 +75,22 @@ Example C20_history :
                      OMutate 0 0 8%N; OIndex; OReplace 1 0 (4%N,40%N); ORemove 1 1; OExternal [(5%N,50%N)]; OIndex] in
   fst (read_now true s) = [(5%N,50%N)] /\ cache s <> None /\ List.length (handles s) = 3.
 Proof. vm_compute. repeat split; discriminate. Qed.
+
+(* ---- the correspondence with quiet steps (the harness does not read the index after a step flagged
+   true, so that the history's own next Index() is e.g. the cache MISS after an external rewrite):
+   with no quiet step it is the plain trace; C20_inv speaks about every history whatever is observed ---- *)
+Theorem C20_trace_quiet_loud : forall deep ops s, trace_q deep s (map (pair false) ops) = trace deep s ops.
+Proof. exact trace_q_all_loud. Qed.
+Print Assumptions C20_trace_quiet_loud.
+
+Theorem C20_ext_trace_quiet_loud : forall fixed ops s, etrace_q fixed s (map (pair false) ops) = etrace fixed s ops.
+Proof. exact etrace_q_all_loud. Qed.
+Print Assumptions C20_ext_trace_quiet_loud.
+
+(* non-vacuity: [external rewrite; Index() (miss); write / append / remove through the returned value;
+   no SetIndex] — the next Index() returns the file *)
+Example C20_miss_history :
+  let s := run true [OExternal [(9%N,90%N)]; OIndex; OExternal [(2%N,20%N); (1%N,10%N)]; OIndex; OMutate 1 0 99%N;
+                     OAppend 1 (3%N,30%N); ORemove 1 1] in
+  fst (read_now true s) = [(1%N,10%N); (2%N,20%N)] /\ view s (nth 1 (handles s) []) = [(1%N,99%N); (3%N,30%N)].
+Proof. vm_compute. split; reflexivity. Qed.
